@@ -73,7 +73,11 @@ Destroy == \E s \in Slots : /\ TwoSlots /\ live[0] /\ live[1]      \* either cop
 
 Next == Restrict \/ Other \/ Dup \/ Destroy
 Spec == Init /\ [][Next]_<<pus, nodes, live, steps, hist>>
-StateView == <<pus, nodes, live, steps>>
+\* the view keeps the signature of the history (which call on which slot, in order): the stores the calls fill (Misc and Group objects,
+\* distances, memory attributes, cpukinds, infos) are not model variables, so two histories that differ in the calls made are different
+\* states and every ordered combination of calls up to MaxSteps is an edge of the graph; arguments of earlier calls are abstracted
+Sig == [i \in 1..Len(hist) |-> <<hist[i][1], hist[i][2]>>]
+StateView == <<pus, nodes, live, steps, Sig>>
 
 NeverEmpty == \A s \in Slots : pus[s] # {} /\ nodes[s] # {}
 \* a copy starts from what the original had, and the two evolve independently afterwards
